@@ -4,6 +4,7 @@ import GqlVerif.Proofs.C01AbstractI
 import GqlVerif.Proofs.C01RecursiveE
 import GqlVerif.Proofs.C01RecursiveV
 import GqlVerif.Proofs.C01Rust
+import GqlVerif.Proofs.C01VariantSpread
 open GqlVerif.C03
 #print axioms ok_iff_accepts
 #print axioms null_at_non_null_rejected
@@ -48,3 +49,9 @@ open GqlVerif.C03
 #print axioms GqlVerif.C01.E2E.variant_precise_iff_rust
 #print axioms GqlVerif.C01.E2E.fragment_precise_iff_rust
 #print axioms GqlVerif.C01.E2E.recfragment_precise_iff_rust
+-- named fragment spreads at abstract positions (Proofs/C01VariantSpread*.lean)
+#print axioms GqlVerif.C01.E2E.variantspread_precise_iff
+#print axioms GqlVerif.C01.E2E.variantspread_precise
+#print axioms GqlVerif.C01.E2E.ws_precise
+#print axioms GqlVerif.C01.E2E.bs_precise
+#print axioms GqlVerif.C01.E2E.variantspread_alias_rejects_wrong_kind
